@@ -2,6 +2,7 @@
  * with the op lines of the model driver (lean/Driver/C19.lean) and prints the fiber's frame bookkeeping after each op.
  *   new <capacity> <slotcount>   fresh fiber running a function with <slotcount> slots     -> state line
  *   push n | tail s a min max v | call s a min max v                                      -> state line | "arity"
+ *   ret                          janet_fiber_popframe                                     -> state line
  */
 #include <janet.h>
 #include <stdio.h>
@@ -55,6 +56,9 @@ int main(void) {
         } else if (!strcmp(op, "call")) {
             if (janet_fiber_funcframe(fiber, mkfn(a, b, c, d, e))) printf("arity\n");
             else show(fiber);
+        } else if (!strcmp(op, "ret")) {
+            janet_fiber_popframe(fiber);
+            show(fiber);
         } else {
             printf("bad-op\n");
         }
